@@ -537,5 +537,152 @@ def holdsClose (callbacks returned : Nat) : Bool :=
 /-- the byte clause: the observer against the bytes the wrapped connection moved -/
 def holdsBytes (rx tx movedIn movedOut : Nat) : Bool := rx == movedIn && tx == movedOut
 
+/-! ## Dialled connections on the CONNECT path
+
+    internal/martian/proxy_connect.go  Connect, connect, connectHTTP, connectSOCKS5 (terminate-TLS in Connect)
+    dialvia/http.go                    HTTPProxyDialer.DialContextR (http and https upstream proxies)
+    dialvia/socks5.go                  SOCKS5ProxyDialer.DialContext (x/net/proxy: closes the connection itself
+                                       when the negotiation fails)
+    proxy_conn.go / proxy_handler.go   handleConnectRequest: `res, crw, cerr := p.Connect(…)`,
+                                       `if crw != nil { defer crw.Close() }` BEFORE `if cerr != nil { return … }`
+    copy.go                            bicopy: gracefulCloseAfter closes both ends once more after the grace period
+
+  Every dial that returns a connection is an `opened` event (net.go Dialer.DialContext: dialed++, active++);
+  it must be matched by a `Close` of the tracked connection on EVERY way out of `handleConnectRequest`.
+  Who owns the connection changes hands: the dialvia dialers close it themselves on every failure and hand
+  out nothing; `Connect` hands the connection out — also TOGETHER WITH an error (terminate-TLS handshake
+  failure; a `ConnectFunc` that returns both) — and from then on the caller's deferred `Close` is the only one. -/
+
+/-- what the dialer's metrics see of one CONNECT exchange -/
+inductive DEv
+  | dialError   -- Dialer.DialContext failed: errors++
+  | opened      -- Dialer.DialContext returned a tracked connection: dialed++, active++
+  | close       -- one call of the tracked connection's `Close`
+  deriving DecidableEq, Repr
+
+/-- how `DialContextR` goes on once the dial to the upstream HTTP(S) proxy returned a connection -/
+inductive ViaEnd
+  | tlsFails       -- https upstream: the handshake (run by the first write) fails → `conn.Close()`
+  | headerError    -- `GetProxyConnectHeader` returns an error → `conn.Close()`
+  | writeError     -- writing / flushing the CONNECT head fails → `conn.Close()`
+  | ctxDone        -- context cancelled or `ConnectTimeout` before the reply → `conn.Close()`
+  | replyError     -- reply torn, malformed, EOF → `conn.Close()`
+  | reply (status : Nat)   -- a reply was read: `return res, conn, nil` whatever the status
+  deriving DecidableEq, Repr
+
+/-- SOCKS5: the negotiation after the dial -/
+inductive SocksEnd
+  | negotiationFails   -- method refused, request refused, reply torn / timed out: x/net closes the connection
+  | established
+  deriving DecidableEq, Repr
+
+/-- `Proxy.connect`: which way the target is reached -/
+inductive Route
+  | proxyURLError       -- `p.ProxyURL(req)` failed: nothing dialled
+  | unsupportedScheme   -- nothing dialled
+  | direct (dialOk : Bool)
+  | viaHTTP (tls dialOk : Bool) (e : ViaEnd)
+  | viaSOCKS5 (dialOk : Bool) (e : SocksEnd)
+  deriving DecidableEq, Repr
+
+/-- `(res, crw, cerr)` as far as clean-up is concerned: `res` = status of a non-nil response -/
+structure ConnectResult where
+  res : Option Nat
+  conn : Bool
+  err : Bool
+  deriving DecidableEq, Repr
+
+def ConnectResult.failed : ConnectResult := ⟨none, false, true⟩
+
+/-- `Proxy.connect(req)` with what the dialer saw -/
+def connect : Route → ConnectResult × List DEv
+  | .proxyURLError => (.failed, [])
+  | .unsupportedScheme => (.failed, [])
+  | .direct true => (⟨some 200, true, false⟩, [.opened])
+  | .direct false => (.failed, [.dialError])
+  | .viaHTTP _ false _ => (.failed, [.dialError])
+  | .viaHTTP _ true (.reply st) =>
+    -- connectHTTP: 2xx → newConnectResponse(req); otherwise the proxy's answer is passed on; the
+    -- connection is handed out in both cases
+    (⟨some (if st / 100 = 2 then 200 else st), true, false⟩, [.opened])
+  | .viaHTTP _ true _ => (.failed, [.opened, .close])
+  | .viaSOCKS5 false _ => (.failed, [.dialError])
+  | .viaSOCKS5 true .negotiationFails => (.failed, [.opened, .close])
+  | .viaSOCKS5 true .established => (⟨some 200, true, false⟩, [.opened])
+
+/-- `p.ConnectFunc` -/
+inductive ConnectFn
+  | unset
+  | fallback                        -- returned ErrConnectFallback (and nothing else)
+  | result (r : ConnectResult)      -- returned this; a connection it returns was dialled (and is tracked)
+  deriving DecidableEq, Repr
+
+/-- `Proxy.Connect(ctx, req, terminateTLS)`: `handshakeOk` = the TLS handshake with the target succeeds.
+    A failed handshake sets `cerr` and LEAVES `crw` = the dialled connection. -/
+def proxyConnect (cf : ConnectFn) (route : Route) (terminateTLS handshakeOk : Bool) :
+    ConnectResult × List DEv :=
+  match cf with
+  | .result r => (r, if r.conn then [.opened] else [])
+  | _ =>
+    let c := connect route
+    if c.1.conn && terminateTLS && !handshakeOk then ({ c.1 with err := true }, c.2) else c
+
+/-- where `handleConnectRequest` registers the deferred `crw.Close()` -/
+inductive DeferOrder
+  | beforeErrorCheck   -- the code
+  | afterErrorCheck    -- "check the error, then defer Close"
+  deriving DecidableEq, Repr
+
+/-- how `handleConnectRequest` goes on when `Connect` returned no error -/
+inductive AfterConnect
+  | modifyResponseError (w : Bool)            -- `modifyResponse(res)` failed → writeErrorResponse
+  | passedOn (w : Bool)                       -- non-2xx answer of the upstream proxy → writeResponse(res)
+  | tunnel (e : TunnelEnd) (forced : Bool)    -- `forced`: one side stayed open for the grace period, bicopy closed both
+  deriving DecidableEq, Repr
+
+/-- `Close` calls on `crw` made by the code that runs after `Connect` returned without error, besides the deferred one -/
+def AfterConnect.extraCloses : AfterConnect → Nat
+  | .tunnel .closed true => 1
+  | _ => 0
+
+/-- `Close` calls `handleConnectRequest` (and what it calls) makes on the connection `Connect` handed out -/
+def callerCloses (o : DeferOrder) (r : ConnectResult) (a : AfterConnect) : Nat :=
+  if !r.conn then 0
+  else if r.err then
+    match o with
+    | .beforeErrorCheck => 1    -- the defer is already registered when the error is looked at
+    | .afterErrorCheck => 0     -- returned before the defer
+  else 1 + a.extraCloses
+
+/-- one way through `handleConnectRequest` from `p.Connect` on -/
+structure ConnectExit where
+  cf : ConnectFn
+  route : Route
+  terminateTLS : Bool
+  handshakeOk : Bool
+  after : AfterConnect
+  deriving DecidableEq, Repr
+
+def ConnectExit.result (x : ConnectExit) : ConnectResult :=
+  (proxyConnect x.cf x.route x.terminateTLS x.handshakeOk).1
+
+/-- what the dialer sees of the exchange, in order -/
+def ConnectExit.devents (o : DeferOrder) (x : ConnectExit) : List DEv :=
+  (proxyConnect x.cf x.route x.terminateTLS x.handshakeOk).2 ++
+    List.replicate (callerCloses o x.result x.after) .close
+
+def closesOf (evs : List DEv) : Nat := evs.count .close
+
+/-- the same exchange as operations of the listener/dialer machine above, its connection (if one was
+    dialled) being the `i`-th: the dial, then every `Close` call as one goroutine taking both its steps -/
+def dialOps (i : Nat) (evs : List DEv) : List LOp :=
+  (if DEv.dialError ∈ evs then [LOp.acceptError] else []) ++
+  (if DEv.opened ∈ evs then
+    LOp.accept (closesOf evs) :: (List.range (closesOf evs)).flatMap fun j => [LOp.close i j, LOp.close i j]
+   else [])
+
+/-- every closer of every connection has returned -/
+def LSt.allFinished (s : LSt) : Bool := s.conns.all fun c => decide (c.doneCount = c.n)
+
 end C13
 end FwdVerif
